@@ -169,8 +169,20 @@ def one_round(rng, names, spelled, feats):
         if rng.random() < pr:
             x = rng.random()
             if x < 0.65:
-                r = NS + names[rng.randrange(n)]
+                b = names[rng.randrange(n)]
+                r = NS + b
                 feats.add("redirect.to-page")
+                if spelled and rng.random() < 0.3:
+                    # the stored target title is not byte-identical to the stored title of its target, but the page
+                    # store resolves it to that page (always with a namespace prefix: a bare title would be main space)
+                    low = b[:1].lower() + b[1:]
+                    alts = [NS + b.replace(" ", "_"), "T:" + b, "template:" + b, "t:" + b.replace(" ", "_")]
+                    if low[:1].upper() == b[:1]:
+                        alts += [NS + low, "T:" + low.replace(" ", "_")]
+                    r2 = rng.choice(alts)
+                    if r2 != r:
+                        r = r2
+                        feats.add("redirect.target-spelled")
             elif x < 0.8:
                 r = NS + names[i]
                 feats.add("redirect.to-self")
